@@ -329,7 +329,8 @@ def h0(rep, prog):
     rep.ob("H0", "little-endian", le, "all integer encodings are to_le_bytes", loc=f.loc())
     ini = [c for c in f.calls() if c.rpath.endswith("::State::init")]
     if ini:
-        rep.ob("H0", "digest length 64", evaluate(call_arg_exprs(ini[0])[0], {}) == 64, "prehash digest length %r" % evaluate(call_arg_exprs(ini[0])[0], {}), loc=ini[0].loc())
+        io_ = cm.blake2b_init_roles(prog, ini[0])["outlen"]
+        rep.ob("H0", "digest length 64", evaluate(call_arg_exprs(ini[0])[io_], {}) == 64, "prehash digest length %r" % evaluate(call_arg_exprs(ini[0])[io_], {}), loc=ini[0].loc())
 
 
 LEN_LABEL = {"output": "outlen", "password": "pwdlen", "salt": "saltlen", "secret": "secretlen", "ad": "adlen"}
